@@ -51,14 +51,15 @@ def run_matrix(groups=None, scalars=None, storages=None, log=print, separate=())
     singles = []
     for u, (res, idxs) in zip(units, outs):
         if res is not None: results.update(res)
-        else: singles += [(u, i) for i in idxs]
+        singles += [(u, i) for i in idxs]        # a unit that built: only its separately compiled (listed) entries; otherwise all of them
     def do_single(ui):
         (g, sc, st), i = ui
         src, _ = am.unit(g, sc, st, only=i)
         rc, out, _ = build(src, wd, "s_%s_%s_%s_%d" % (g, sc, st, i), link=False)
         return (i, g, sc, st), (rc == 0, "compiles" if rc == 0 else first_error(out))
     if singles:
-        log("%d combined units do not build; compiling %d entries one by one" % (len(set(u for u, _ in singles)), len(singles)))
+        nfail = sum(1 for res, _ in outs if res is None)
+        log("%d combined units do not build; compiling %d entries one by one (incl. the separately compiled listed cells)" % (nfail, len(singles)))
         with ThreadPoolExecutor(max_workers=vlib.JOBS) as ex:
             for k, v in ex.map(do_single, singles): results[k] = v
     shutil.rmtree(wd, ignore_errors=True)
